@@ -468,3 +468,5 @@ UNITS = [
     Unit('_aromatization_Benson', (SCHEME, '_aromatization_Benson'), u_aromatization),
 ]
 STANDINS = [standins.c02_reference]
+
+PROBES = [chem.probe_bond_codes]
